@@ -3,6 +3,7 @@ use std::io::{self, BufRead, Write};
 
 mod budget;
 mod entry;
+mod erase;
 mod heap;
 mod iso;
 mod json;
@@ -25,6 +26,7 @@ fn main() {
         "path" => path::line,
         "budget" => budget::line,
         "entry" => entry::line,
+        "erase" => erase::line,
         "roles" => entry::roles_line,
         "heap" => heap::line,
         "iso" => iso::line,
